@@ -10,15 +10,12 @@
 (* concretises a shape deterministically from (shape, VERIF_SEED).  Every case carries `lay`: the  *)
 (* MCNK header size and field positions and the MHDR field order of the FORMAT (AdtLayout.tla),    *)
 (* which is all the driver's chunk walker knows beyond the framing rule.                            *)
-EXTENDS Integers, Sequences, SequencesExt, FiniteSets, Json, IOUtils, TLC
-
-CONSTANTS Deviations, MhdrFileRelative, NK, MaxRounds
-L == INSTANCE AdtLayout
+EXTENDS AdtLayout, SequencesExt, Json, IOUtils
 
 Thorough == IOEnv.VERIF_TIER = "thorough"
 Seed     == atoi(IOEnv.VERIF_SEED)
 
-Lay == [mcnk_hdr |-> L!McnkHdr, mcnk_fields |-> L!McnkFields, mhdr_fields |-> L!MhdrFields]
+Lay == [mcnk_hdr |-> McnkHdr, mcnk_fields |-> McnkFields, mhdr_fields |-> MhdrFields]
 
 Base == [ver |-> 0, ntex |-> 1, nmdl |-> 0, nwmo |-> 0, nddf |-> 0, nmodf |-> 0, mcnk |-> "one00", where |-> "all",
          mcvt |-> TRUE, mcnr |-> TRUE, nly |-> 1, mcrf |-> FALSE, mcal |-> FALSE, mcsh |-> FALSE, mclq |-> FALSE,
@@ -51,7 +48,8 @@ S2 == {WithSub([Base EXCEPT !.ver = v], SubKinds[q]) : v \in {0, 3, 5}, q \in 1.
       \cup {[Base EXCEPT !.ver = v, !.mcvt = a, !.mcnr = b] : v \in {0, 2}, a \in BOOLEAN, b \in BOOLEAN}
 \* S3: MCNK population x where the optional sub-chunks sit
 S3 == {[Base EXCEPT !.ver = v, !.mcnk = McnkCls[c], !.where = Wheres[w], !.mclq = lq, !.mccv = TRUE, !.mcal = TRUE, !.nly = 2] :
-          v \in {1, 4}, c \in 1..Len(McnkCls), w \in 1..Len(Wheres), lq \in BOOLEAN}
+          v \in {1, 2}, c \in 1..Len(McnkCls), w \in 1..Len(Wheres), lq \in BOOLEAN}
+      \cup {[Base EXCEPT !.ver = 4, !.mcnk = McnkCls[c], !.where = "last", !.mccv = TRUE, !.mcal = TRUE, !.nly = 2] : c \in 1..4}
 \* S4: list cardinalities (0 textures / placements without names are rejected by the builder: allowed)
 S4 == {[Base EXCEPT !.ver = 2, !.ntex = Cards[a], !.nmdl = Cards[b], !.nddf = Cards[c], !.nwmo = Cards[d], !.nmodf = Cards[d]] :
           a \in 1..3, b \in 1..3, c \in 1..3, d \in 1..3}
@@ -75,14 +73,16 @@ Draw(m) ==
     IN [ver |-> v, ntex |-> IF x2 % 16 = 0 THEN 0 ELSE DrawOf(<<1, 3>>, x2), nmdl |-> nm, nwmo |-> nw,
         nddf |-> IF nm = 0 /\ x5 % 8 # 0 THEN 0 ELSE DrawOf(Cards, x5),
         nmodf |-> IF nw = 0 /\ x6 % 8 # 0 THEN 0 ELSE DrawOf(Cards, x6),
-        mcnk |-> DrawOf(<<"auto", "one00", "one00", "one1515", "one1515", "n17", "n17", "n256">>, x7),
+        \* 256 populated chunks: in quick only before WotLK (C14-MTXF-READ-TO-EOF doubles a WotLK+ file per round)
+        mcnk |-> LET mk == DrawOf(<<"auto", "one00", "one00", "one1515", "one1515", "n17", "n17", "n256">>, x7)
+                 IN IF mk = "n256" /\ v >= 3 /\ ~Thorough THEN "n17" ELSE mk,
         where |-> DrawOf(Wheres, x8), mcvt |-> x9 % 8 # 0, mcnr |-> x10 % 8 # 0, nly |-> (x11 \div 7) % 5,
         mcrf |-> DrawBool(x12), mcal |-> DrawBool(x13), mcsh |-> DrawBool(x14), mclq |-> DrawBool(x15),
         mccv |-> DrawBool(x16), mcse |-> DrawBool(x17), mclv |-> DrawBool(x18),
         water |-> IF adm("water", x19) THEN DrawOf(<<"c0", "c255", "all">>, x20) ELSE "none",
         mfbo |-> adm("mfbo", x21), mtxf |-> adm("mtxf", x22), mamp |-> adm("mamp", x23), mtxp |-> adm("mtxp", x24),
         bmesh |-> adm("bmesh", x25)]
-NDraw == IF Thorough THEN 2500 ELSE 110
+NDraw == IF Thorough THEN 700 ELSE 110
 Draws == [m \in 1..NDraw |-> Draw(m)]
 
 \* thorough adds the slices at every version
@@ -95,6 +95,9 @@ Shapes == SetToSeq(S1) \o SetToSeq(S2 \ S1) \o SetToSeq(S3 \ (S1 \cup S2)) \o Se
           \o SetToSeq(S5 \ (S1 \cup S2 \cup S3 \cup S4)) \o SetToSeq(T1 \ (S1 \cup S2 \cup S3 \cup S4 \cup S5)) \o Draws
 Cases == [j \in 1..Len(Shapes) |-> [fld \in DOMAIN Shapes[j] \cup {"lay", "id"} |->
              IF fld = "lay" THEN Lay ELSE IF fld = "id" THEN j ELSE Shapes[j][fld]]]
+\* the generator is a constant-level computation; the behaviour spec is a single stuttering-free state
+GenInit == Init /\ aver = 0 /\ aopts = {} /\ ank = 0 /\ asubs = {}
+GenNext == FALSE /\ UNCHANGED avars
 ASSUME ndJsonSerialize(IOEnv.CASES, Cases)
 ASSUME PrintT(<<"GENERATED", Len(Cases)>>)
 =============================================================================
